@@ -43,6 +43,11 @@ pub fn plan(prop: &str, tier: Tier, seed: u64) -> Option<Plan> {
 
 /// rebuild a harness from its name (replays)
 pub fn by_name(name: &str) -> Option<Arc<dyn Harness>> {
+  let (base, pins) = crate::explore::parse_pins(name);
+  if !pins.is_empty() {
+    let inner = by_name(&base)?;
+    return Some(Arc::new(crate::explore::Pinned { inner, pins }));
+  }
   let prop = name.split('/').next()?;
   match prop {
     "C02" => c02::by_name(name),
